@@ -247,7 +247,7 @@ Record drv_case := mkDrv {
   d_tabs : tbl; d_rmspace : tbl; d_blanklines : tbl; d_dedent : tbl; d_addimp : tbl;
   d_single_keep : tbl; d_single_all : tbl;
   d_multi : list (nat * tbl);      (* (position, table): all other multi stages are the identity *)
-  d_multi_pres : list (nat * tbl); (* (position, table used instead when the state is preserved) *)
+  d_multi_pres : list (nat * tbl); (* (position, table used instead when name 10*s+1 of the state is preserved) *)
   d_overused_static : tbl; d_overused_nonstatic : tbl; d_simplify : tbl; d_align : tbl;
   d_remove_unused : tbl; d_sort : tbl; d_linelen : tbl; d_indent_t : tbl;
   d_minws : list tbl;              (* indexed by original, then by source *)
@@ -281,7 +281,7 @@ Definition case_app (c : drv_case) (st : stage) (p : list nat) (s : nat) : nat :
   | StSingleRun false => tapp (d_single_all c) s
   | StMulti i =>
       match assoc_tbl i (d_multi_pres c) with
-      | Some t => if existsb (Nat.eqb s) p then tapp t s
+      | Some t => if existsb (Nat.eqb (10 * s + 1)) p then tapp t s
                   else match assoc_tbl i (d_multi c) with Some t' => tapp t' s | None => s end
       | None => match assoc_tbl i (d_multi c) with Some t' => tapp t' s | None => s end
       end
@@ -338,8 +338,13 @@ Definition onats_eqb (a b : option (list nat)) : bool :=
   | _, _ => false
   end.
 
+(* the observed trace is written with one token (500) per complete pass of _multi_run_fixes *)
+Definition expand_trace (multi_codes tr : list nat) : list nat :=
+  flat_map (fun c => if c =? 500 then multi_codes else [c]) tr.
+
 Definition drv_case_ok (c : drv_case) : bool :=
-  (fst (case_run c) =? d_exp_out c) && nats_eqb (case_trace c) (d_exp_trace c)
+  (fst (case_run c) =? d_exp_out c)
+  && nats_eqb (case_trace c) (expand_trace (d_multi_codes c) (d_exp_trace c))
   && onats_eqb (case_pres c) (d_exp_pres c).
 
 (* format_file cases: one row of the decision table *)
